@@ -168,6 +168,10 @@ func (g *engine) addExpr(env *exprh.Env, pe physical.Expression, frames [][]octo
 		cf.Violation(idx, fmt.Sprintf("Materialize failed: %v %v", merr, mp), "")
 		return idx
 	}
+	if env.RepeatHazard(pe, frames) {
+		cf.Count("skipped_repeat_hazard")
+		return -1
+	}
 	obs := exprh.Eval(ex, frames)
 	js["observed"] = obs.JSON()
 	idx := cf.Add(fmt.Sprintf("(CExpr %s %s %s %s %s)", tree, nary, coqPe, exprh.CoqFrames(frames), obs.Coq()), js, nontrivial)
@@ -315,13 +319,37 @@ func (g *engine) strictCases(rng *lib.Rng, reps int) {
 				}
 				patterns = append(patterns, p)
 			}
+			// every static typing a NULL-valued argument can have: a column typed T | NULL, the NULL literal (type
+			// exactly NULL), a column typed exactly NULL (null in every record), a column typed Any
+			type variant struct {
+				pat    []bool
+				typing string
+			}
+			var variants []variant
 			for _, pat := range patterns {
+				variants = append(variants, variant{pat, "union"})
+				anyNull := false
+				for _, b := range pat {
+					anyNull = anyNull || b
+				}
+				if anyNull {
+					variants = append(variants, variant{pat, "literal"}, variant{pat, "nullcol"}, variant{pat, "anycol"})
+				}
+			}
+			for _, vr := range variants {
+				pat := vr.pat
 				types := make([]octosql.Type, n)
 				vals := make([]octosql.Value, n)
 				for i := range vec {
 					types[i] = octosql.TypeSum(concrete[i], octosql.Null)
 					if pat[i] {
 						vals[i] = octosql.NewNull()
+						switch vr.typing {
+						case "nullcol", "literal":
+							types[i] = octosql.Null
+						case "anycol":
+							types[i] = octosql.Any
+						}
 					} else {
 						vals[i] = exprh.GenOfType(r, concrete[i], false)
 					}
@@ -339,10 +367,13 @@ func (g *engine) strictCases(rng *lib.Rng, reps int) {
 				args := make([]logical.Expression, n)
 				for i := range args {
 					args[i] = env.Var(i)
+					if pat[i] && vr.typing == "literal" {
+						args[i] = logical.NewConstant(octosql.NewNull())
+					}
 				}
 				pe, _, panicked := env.Typecheck(logical.NewFunctionExpression(row.Name, args))
 				if panicked {
-					g.cf.Count("typecheck_rejected:strict")
+					g.cf.Count("typecheck_rejected:strict_" + vr.typing)
 					continue
 				}
 				if pe.ExpressionType != physical.ExpressionTypeFunctionCall {
@@ -359,7 +390,10 @@ func (g *engine) strictCases(rng *lib.Rng, reps int) {
 				if row.Name == "now" {
 					continue // reads the clock: not a function of its arguments
 				}
-				js := map[string]interface{}{"function": row.Name, "descriptor": row.Idx, "chosen": chosen, "strict": pe.FunctionCall.FunctionDescriptor.Strict, "null_pattern": pat}
+				js := map[string]interface{}{"function": row.Name, "descriptor": row.Idx, "chosen": chosen, "strict": pe.FunctionCall.FunctionDescriptor.Strict, "null_pattern": pat, "null_typing": vr.typing}
+				if anyNull {
+					g.cf.Count("null_argument_typing:" + vr.typing)
+				}
 				idx := g.addExpr(env, pe, [][]octosql.Value{vals}, "None", "None", "descriptor", js, anyNull)
 				if idx >= 0 {
 					if pe.FunctionCall.FunctionDescriptor.Strict {
@@ -367,6 +401,119 @@ func (g *engine) strictCases(rng *lib.Rng, reps int) {
 					} else {
 						g.cf.Count("descriptor_case:non_strict")
 					}
+				}
+			}
+		}
+	}
+}
+
+// compositionCases: outer(inner(columns...), columns...) for every pair of descriptors whose declared types fit;
+// columns are NON-nullable and hold edge values (non-numeric strings, NaN, ...), so a NULL can only appear at run
+// time, out of the inner call.  The runtime values of the outer call's arguments are observed separately (each
+// argument expression is materialised and evaluated on its own) and handed to the oracle.
+func (g *engine) compositionCases(rng *lib.Rng, perPair int, sample int) {
+	comps := exprh.Compositions(exprh.Table(exprh.FunctionMap()))
+	g.cf.Side.Distribution["composition_pairs_total"] = len(comps)
+	for ci, comp := range comps {
+		r := rng.Fork()
+		if sample > 1 && ci%sample != int(r.U64()%uint64(sample)) && !(comp.Inner.Desc.OutputType.TypeID == octosql.TypeIDUnion) {
+			continue // quick tier: a seeded 1/sample of the pairs whose inner result is declared non-nullable...
+		}
+		// columns: the inner call's arguments, then the outer call's other arguments
+		var types []octosql.Type
+		concrete := func(t octosql.Type) octosql.Type {
+			if t.TypeID == octosql.TypeIDAny {
+				return exprh.ScalarTypes[1+r.Intn(6)]
+			}
+			return octosql.NonNullable(t)
+		}
+		innerArgs := make([]int, len(comp.Inner.Desc.ArgumentTypes))
+		for i, t := range comp.Inner.Desc.ArgumentTypes {
+			innerArgs[i] = len(types)
+			types = append(types, concrete(t))
+		}
+		outerArgs := make([]int, len(comp.Outer.Desc.ArgumentTypes))
+		for i, t := range comp.Outer.Desc.ArgumentTypes {
+			if i == comp.Pos {
+				continue
+			}
+			outerArgs[i] = len(types)
+			types = append(types, concrete(t))
+		}
+		env := exprh.NewEnv(types)
+		ia := make([]logical.Expression, len(innerArgs))
+		for i := range ia {
+			ia[i] = env.Var(innerArgs[i])
+		}
+		oa := make([]logical.Expression, len(outerArgs))
+		for i := range oa {
+			if i == comp.Pos {
+				oa[i] = logical.NewFunctionExpression(comp.Inner.Name, ia)
+			} else {
+				oa[i] = env.Var(outerArgs[i])
+			}
+		}
+		pe, _, panicked := env.Typecheck(logical.NewFunctionExpression(comp.Outer.Name, oa))
+		if panicked || pe.ExpressionType != physical.ExpressionTypeFunctionCall {
+			g.cf.Count("typecheck_rejected:composition")
+			continue
+		}
+		coqPe, err := env.CoqPexpr(pe)
+		if err != nil {
+			continue
+		}
+		ex, merr, mp := env.Materialize(pe)
+		if merr != nil || mp != nil {
+			continue
+		}
+		argEx := make([]execution.Expression, len(pe.FunctionCall.Arguments))
+		ok := true
+		for i := range argEx {
+			a, e1, p1 := env.Materialize(pe.FunctionCall.Arguments[i])
+			if e1 != nil || p1 != nil {
+				ok = false
+			}
+			argEx[i] = a
+		}
+		if !ok {
+			continue
+		}
+		rows := exprh.EdgeRows(types, 0)
+		// spread the per-pair budget over the edge rows, different rows for different pairs
+		step := 1
+		if len(rows) > perPair {
+			step = len(rows) / perPair
+		}
+		for k := (ci % step); k < len(rows); k += step {
+			row := rows[k]
+			if comp.Outer.Name == "*" || comp.Inner.Name == "*" {
+				exprh.ClampRepeatCounts(row)
+			}
+			frames := [][]octosql.Value{row}
+			if env.RepeatHazard(pe, frames) {
+				g.cf.Count("skipped_repeat_hazard")
+				continue
+			}
+			obs := exprh.Eval(ex, frames)
+			argObs := make([]string, len(argEx))
+			argJS := make([]interface{}, len(argEx))
+			runtimeNull := false
+			for i := range argEx {
+				o := exprh.Eval(argEx[i], frames)
+				argObs[i] = o.Coq()
+				argJS[i] = o.JSON()
+				if i == comp.Pos && o.Kind == 0 && o.Val.TypeID == octosql.TypeIDNull {
+					runtimeNull = true
+				}
+			}
+			js := map[string]interface{}{"family": "composition", "expr": exprh.PexprString(pe), "frames": framesJSON(frames),
+				"argument_values": argJS, "observed": obs.JSON(), "outer_strict": pe.FunctionCall.FunctionDescriptor.Strict}
+			g.cf.Add(fmt.Sprintf("(CCall %s %s [%s] %s)", coqPe, exprh.CoqFrames(frames), strings.Join(argObs, "; "), obs.Coq()), js, runtimeNull)
+			g.cf.Count("family:composition")
+			if runtimeNull {
+				g.cf.Count("composition:inner_call_returned_null_at_run_time")
+				if !exprh.Conforms(octosql.NewNull(), pe.FunctionCall.Arguments[comp.Pos].Type) {
+					g.cf.Count("composition:runtime_null_under_non_nullable_static_type")
 				}
 			}
 		}
@@ -544,6 +691,12 @@ func main() {
 		reps = 8
 	}
 	g.strictCases(rng.Fork(), reps)
+	// 3b. compositions: NULLs that only exist at run time
+	if f.Tier == "thorough" {
+		g.compositionCases(rng.Fork(), 12, 1)
+	} else {
+		g.compositionCases(rng.Fork(), 3, 4)
+	}
 	// 4. Filter node
 	g.filterCases(rng.Fork(), f.Cases(40, 400))
 
